@@ -30,7 +30,7 @@ def _declare(ctx):
     from symx import phase
 
     d = PHASE_DIV[0]
-    phase.declare(ctx, [(ctx.sym("qx") / d, "t1"), (ctx.sym("qy") / d, "t2"), (ctx.sym("qz") / d, "t3")])
+    phase.declare(ctx, [(ctx.sym("qx") / d, "t1"), (ctx.sym("qy") / d, "t2"), (ctx.sym("qz") / d, "t3")], spare=[n for n in ("t4",) if n in ctx.names])
 
 
 def _run_refining(name, names, body, **kw):
@@ -184,6 +184,40 @@ def polyhedron_body(sname, convex, batch):
     return body
 
 
+def sphere_body(centre, batch):
+    def body(H, V):
+        from coxeter.shapes import Sphere
+        import math
+
+        q = _q(H, V)
+        R = V["R"]
+        s = Sphere(R, [H.num(c) for c in centre])
+        rows = {"single": [q], "with_zero": [q, [0 * c for c in q]]}[batch]
+        res = s.compute_form_factor_amplitude(H.arr(rows), density=H.num(2))
+        vol = 4 * H.pi * R ** 3 / 3
+        for i, row in enumerate(rows):
+            r_, i_ = _parts(res[i])
+            if all((not hasattr(c, "num") and c == 0) or (hasattr(c, "num") and not c.num) for c in row):
+                H.claim_eq("sphere.F(0)=density*volume[%d]" % i, r_, 2 * vol)
+                H.claim_eq("sphere.F(0).imag[%d]" % i, i_, 0)
+                continue
+            q2 = O.dot(row, row)
+            qn = H.sqrt(q2)
+            x = qn * R
+            if H.symbolic:
+                from symx import phase
+
+                cx, sx = phase.cos_sin(x)
+            else:
+                cx, sx = math.cos(x), math.sin(x)
+            amp = 2 * 4 * H.pi * (sx - x * cx) / (qn * q2)
+            ph = _expi(H, O.dot(row, [F(c) for c in centre]))
+            H.claim_eq("sphere.F=fourier_transform.re[%d]" % i, r_, amp * ph[0])
+            H.claim_eq("sphere.F=fourier_transform.im[%d]" % i, i_, amp * ph[1])
+
+    return body
+
+
 def obligations(tier, seed):
     from symx.loader import functions_encoded
     import coxeter.shapes as S
@@ -217,4 +251,11 @@ def obligations(tier, seed):
     for sname, convex, batch in scfg:
         add("C12/%s.%s.%s" % ("ConvexPolyhedron" if convex else "Polyhedron", sname, batch), polyhedron_body(sname, convex, batch),
             "axis-aligned solid %s, wave vector free; batch form %s" % (sname, batch), paths=3)
+    for centre, batch in ([((0, 0, 0), "single"), ((2, -1, 3), "with_zero")] if tier == "quick" else [((0, 0, 0), "single"), ((0, 0, 0), "with_zero"), ((2, -1, 3), "single"), ((2, -1, 3), "with_zero"), ((-4, 5, 1), "single")]):
+        nm = "C12/Sphere.c%s.%s" % ("_".join(map(str, centre)), batch)
+        obs.append((nm, (lambda nm=nm, centre=centre, batch=batch: _run_refining(
+            nm, names + ["R", "t4"], sphere_body(centre, batch), positive=["R"], pre=lambda V: [V["qx"] * V["qx"] + V["qy"] * V["qy"] + V["qz"] * V["qz"] >= F(1, 100)],
+            first_sample=dict(first, R=F(3, 2), t4=F(1, 5)), functions=fns, max_paths=(4 if tier == "quick" else 16), budget_s=(200 if tier == "quick" else 1200),
+            stubs=["sin/cos/exp -> rational functions of tan(phase/2); |q| R is a phase discovered on the path"],
+            bounds="sphere with free radius at lattice centre %s, wave vector free with |q|^2 >= 1e-2, density 2; batch form %s" % (centre, batch)))))
     return obs
